@@ -343,3 +343,149 @@ PROPS['C13'] = {
                     'pipeline model: every key mapped to itself ((defsrc) (deflayer base)), no other action kinds, so layout.states holds NormalKey states only; unmod/unshift, caps-word and sequences are inactive',
                     'the statement is silent (no oracle) where two equally long matching overrides of a key have different effects or a modifier is written twice in an input list'],
 }
+
+
+# ----------------------------------------------------------------------------- C19
+def _c19_canon_items(txt):
+    """trailing zero-delay releases sorted by key (they come from a hash set)"""
+    if txt in ('', '-'):
+        return '-'
+    items = txt.split(',')
+    k = len(items)
+    while k > 0 and re.fullmatch(r'R\d+\.0', items[k - 1]):
+        k -= 1
+    tail = sorted(items[k:], key=lambda x: int(x[1:].split('.')[0]))
+    return ','.join(items[:k] + tail)
+
+
+def _c19_project(out):
+    if out.startswith('U '):
+        st = out.split(' # st ')[1]
+        if st == '-':
+            return 'st -'
+        parts = []
+        for ent in st.split(';'):
+            i, _, rest = ent.partition('=[')
+            parts.append(f'{i}=[{_c19_canon_items(rest[:-1])}]')
+        return 'st ' + ';'.join(parts)
+    if out.startswith('K '):
+        return 'V ' + out.split(' # V ')[1]
+    return out
+
+
+def _c19_nontrivial(case, impl):
+    # something was stored, or a replay fed at least one event
+    return (' # st -' not in impl and ' # st ' in impl) or bool(re.search(r'\be[+-]\d', impl))
+
+
+def _c19_stats(cases, impl):
+    import collections
+    d = collections.Counter()
+    for c, i in zip(cases, impl):
+        t = c.split()
+        fam = 'unit_ops' if t[1] == 'U' else 'kanata_e2e'
+        d[fam] += 1
+        d['behaviour_' + ('constant' if t[2] == '0' else 'recorded')] += 1
+        if i.startswith('crash'):
+            d['crash'] += 1
+            continue
+        if i.startswith('hang') or i.startswith('harness-error'):
+            d[i.split()[0]] += 1
+            continue
+        if fam == 'unit_ops':
+            n = int(t[4])
+            d['unit_ops_len_le3' if n <= 3 else 'unit_ops_len_4_30' if n <= 30 else 'unit_ops_len_gt30'] += 1
+            if re.search(r'\bS\d', i.split(' # ')[0]):
+                d['unit_saved_a_macro'] += 1
+            if re.search(r'\be[+-]\d', i):
+                d['unit_replay_fed_events'] += 1
+            if re.search(r' # rep [\d,]*;\d+;[^#]*E\d', i):
+                d['unit_nested_replay_pending'] += 1
+        else:
+            m = re.search(r'same=(\w+) clean=(\d)', i)
+            d['e2e_same_' + m.group(1)] += 1
+            d['e2e_clean_' + m.group(2)] += 1
+            if i.startswith('K ~'):
+                d['e2e_time_sensitive_cfg'] += 1
+                if m.group(1) == '1':
+                    d['e2e_time_sensitive_same_1'] += 1
+            if re.search(r';S\d+=\[', i):
+                d['e2e_saved_a_macro'] += 1
+            if re.search(r';q[\d.]+:\d+:\d+', i):
+                d['e2e_replay_active_seen'] += 1
+            if re.search(r';q\d+\.\d', i):
+                d['e2e_nested_replay_seen'] += 1
+            if ' h ' in c:
+                d['e2e_two_or_more_keys_left_down_at_save'] += 1
+            if re.search(r' s [1-9]\d* ', c.split(' d ')[0]):
+                d['e2e_cfg_has_truncating_stop'] += 1
+            if int(t[3]) < 128:
+                d['e2e_small_max_presses'] += 1
+    return dict(d)
+
+
+def _c19_shrink(case):
+    """drop one op/step at a time (hints and markers stay attached to what follows them)"""
+    t = case.split()
+    if t[1] == 'U':
+        ops, i = [], 5
+        while i < len(t):
+            if t[i] in ('b', 'p', 's'):
+                k = int(t[i + 2]); ops.append(t[i:i + 3 + k]); i += 3 + k
+            elif t[i] in ('r', 'y'):
+                ops.append(t[i:i + 2]); i += 2
+            else:
+                ops.append(t[i:i + 1]); i += 1
+        for j in range(len(ops)):
+            rest = ops[:j] + ops[j + 1:]
+            yield ' '.join(t[:4] + [str(len(rest))] + [x for o in rest for x in o])
+        return
+    # K: find the step list (after the key definitions)
+    nk = int(t[4]); i = 5
+    for _ in range(nk):
+        na = int(t[i + 5]); i += 6 + 2 * na
+    head, steps, i = t[:i], [], i + 1
+    while i < len(t):
+        if t[i] in ('d', 'u', 't', 'w'):
+            steps.append(t[i:i + 2]); i += 2
+        elif t[i] == 'h':
+            k = int(t[i + 1]); steps.append(t[i:i + 2 + k]); i += 2 + k
+        else:
+            steps.append(t[i:i + 1]); i += 1
+    for j in range(len(steps)):
+        if steps[j][0] in ('m',):
+            continue
+        rest = steps[:j] + steps[j + 1:]
+        yield ' '.join(head + [str(len(rest))] + [x for o in rest for x in o])
+
+
+def _c19_describe(case):
+    t = case.split()
+    if t[1] == 'U':
+        return ('direct calls of the dynamic_macro.rs functions (b=begin_record_macro id, p=record_press osc, '
+                'r=record_release osc, s=stop_macro n, y=play_macro id, t=tick_record_state, x=tick_replay_state); '
+                f'replay-delay-behaviour={"constant" if t[2] == "0" else "recorded"}, dynamic-macro-max-presses={t[3]}: '
+                + ' '.join(t[5:]))
+    return ('real Kanata on a one-layer config (keydef = osc kind a1 a2 a3 nacts acts; kind 1 = plain key a1, '
+            '2 = tap-hold a3 a3 a1 a2, acts b/s/y = dynamic-macro-record/-stop(-truncate)/-play), steps d/u = press/release, '
+            f't n = tick_ms(n), w n = wait for the replay to end then n ticks, m = marker; behaviour={"constant" if t[2] == "0" else "recorded"}, '
+            f'max-presses={t[3]}: ' + ' '.join(t[4:]))
+
+
+PROPS['C19'] = {
+    'lean_modules': ['KVerif.Props.C19'],
+    'oracle_project': _c19_project,
+    'nontrivial': _c19_nontrivial,
+    'rule': 'unit level: every sequence of up to 3 (thorough: 5) calls over a 12-call alphabet, random sequences of 4-120 calls and structured record-then-replay sessions (nested plays, self-recursion attempts) of the dynamic_macro.rs functions (limits 0,1,2,3,5,128; both delay behaviours); end to end on the real Kanata: record/type/stop/replay scenarios with markers (keys held across start and stop, truncation 0-3 and beyond, limit exceeded, nested play, replay twice, typing during replay; plain-key and tap-hold configurations), random histories over plain, record, play, stop and multi keys including physically inconsistent ones, tick_ms with ms_elapsed of 65535..140000 during a replay with recorded delays of up to 65535, and three crash-shaped histories (two multi keys, one with plain keys only); non-trivial = a macro was stored or a replay fed an event; distinct = distinct case line',
+    'stats': _c19_stats,
+    'shrink_candidates': _c19_shrink,
+    'describe': _c19_describe,
+    'per_case_timeout': 1.0,
+    'trusted_base': ['Model/DynMacro.lean as a transcription of src/kanata/dynamic_macro.rs and of handle_input_event / tick_states / tick_ms / the DynamicMacro* custom-action arms in src/kanata/mod.rs (checked differentially at function level and end to end, not proved)',
+                     'the one-layer layout model `Flat` (event queue, states, key diff) stands in for keyberon in the end-to-end cases; theorems about the glue hold for any layout (LayoutI)',
+                     'hash-set iteration order is supplied to the model as a hint taken from the real run and validated by the model (it must be a permutation of the set); theorems hold for every hint',
+                     'hook: read-only digests of the record/replay state and a re-export of the module (cfg jtroo_kanata_verif)'],
+    'assumptions': ['tick_ms is called with ms_elapsed < 65536 (the cast `ms_elapsed as u16` wraps beyond that; see extra_loop_overshoot_counterexample)',
+                    'the check runs green only with the proposed fix applied (macro_items.pop() instead of remove(len() - 1)); on the pinned code the crash cases are reported as violations',
+                    'time-sensitive mappings: the same-output clause is checked on the real code only (recorded delays, no truncation, tap-holds resolved before stop, play key held during the replay); it is not a theorem'],
+}
